@@ -252,8 +252,10 @@ func runHarness(prog *ssa.Program, hp *ssa.Package, fn *ssa.Function, thorough b
 		res.SolverS = in.sol.dur.Seconds()
 		res.MaxQueryMs = int(in.sol.maxQ.Milliseconds())
 		res.WallS = time.Since(t0).Seconds()
-		if in.sol.nrestart > 0 {
-			res.Outcomes = append(res.Outcomes, &Outcome{Kind: "inconclusive", ID: "solver-restart", Msg: fmt.Sprintf("solver process restarted %d times (no answer within the time limit)", in.sol.nrestart), Harness: fn.Name()})
+		if in.sol.nrestart > in.sol.nrecovered {
+			res.Outcomes = append(res.Outcomes, &Outcome{Kind: "inconclusive", ID: "solver-restart", Msg: fmt.Sprintf("solver process restarted %d times (no answer within the time limit), %d of the queries decided by the fallback solver", in.sol.nrestart, in.sol.nrecovered), Harness: fn.Name()})
+		} else if in.sol.nrestart > 0 {
+			res.Notes = append(res.Notes, fmt.Sprintf("incremental solver restarted %d times; each of these queries was decided by the fallback solver", in.sol.nrestart))
 		}
 		if in.sol.durModel > time.Second {
 			res.Notes = append(res.Notes, fmt.Sprintf("%.1fs spent in model extraction", in.sol.durModel.Seconds()))
